@@ -142,6 +142,18 @@ CHECKS = {
             'Exceptions: three narrowly signed known findings (Takeuchi y6 slot, z Taylor branch, their end-to-end drift).',
             'Vectors are judged as a family (span), not per vector; series / Bessel domains and low-frequency dynamic liquids are excluded and counted; interior '
             'slices are not compared (dense-output noise); uniform-sphere gravity for the ODE leg.', 'DESIGN.md section 2, C04 and section 8'),
+    'C06': ('fault_enumeration', 'E1-lattice',
+            'exhaustive layer-stack x fault-menu lattice (argument, integration and array-entry faults, two-call sequences) on the real compiled '
+            'solver, every case in a short-lived child process with crash / hang / silent-exit attribution down to the single case; glibc heap '
+            'checks, and an ASan+UBSan shadow build in the thorough tier',
+            'Every 1-3-layer stack (liquid surfaces included, 584 stacks) is crossed with an explicit menu of 112 argument, integration and array-entry faults, both '
+            'nondimensionalize and raise_on_fail settings, and two-call sequences on the same arrays (5,050 cases quick, 197,028 thorough + 5,042 under ASan). '
+            'Asserted on every case: the call returns a RadialSolverSolution or raises an Exception subclass (never a crash, hang or silent exit); the '
+            'success / message / None protocol holds; raise_on_fail is honoured; the five caller arrays are restored within 4 ulp on every exit path. '
+            '13 narrowly signed known findings (Cython / CyRK).',
+            'One geometry and frequency (the seed rotates materials only); a hang means exceeding 120 s wall and 20 s CPU alone in a fresh process; silent '
+            'corruption that neither glibc checks nor ASan detect is not decided; dynamic-liquid-top stacks and the known process-killing / hanging inputs are '
+            'crossed with a reduced menu because the known crash masks everything else on them.', 'DESIGN.md section 2, C06 and section 8'),
 }
 
 NOT_APPLICABLE = {}
